@@ -66,6 +66,11 @@ CHECKS = {
         text='Exploration. Written inventories of a fixture (non-ASCII, nested, hidden, duplicate and root-named objects), generated projects and real packages are loaded by both readers and compared entry by entry with the visible documented objects and an independent statement of the URL layout. 160k (quick) / 2M (thorough) structured fuzz inputs and 32k / 400k single-line corruptions of valid inventories are fed to the real update(): it must not raise, a previously loaded inventory and the other lines must resolve unchanged, and a line that disappears must have been reported.',
         note='Sphinx 9.1 is the second reader; zlib/UTF-8 are the interpreter\'s; a corrupted line that still parses under another name or a non-py domain counts as usable/ignorable as the reader defines it.',
         ref='4/C17'),
+    'C18': dict(
+        technique='differential monitor between separate processes: the real CLI entry point is run in fresh interpreters under varied PYTHONHASHSEED, directory listing order (os.listdir/os.scandir/Path.iterdir reordered in the child by a shim) and fresh/reused output directory; output trees compared by per-file digest',
+        text='Exploration over schedules/configurations/histories. Generated projects (one or several roots, with and without an explicit project name, several docformats) and real packages are rendered by `python shim ...` = pydoctor.driver.main in a fresh process under 6 (quick) / 12 (thorough) configurations each; every file of every output tree is hashed and all trees of a project must have one digest. The first differing file and line are kept as witness.',
+        note='Build time fixed by --buildtime or SOURCE_DATE_EPOCH; the order of the roots on the command line is part of the input; intersphinx off.',
+        ref='4/C18'),
     'C19': dict(
         technique='trace monitor: every visit/depart dispatched through visitor._BaseVisitor is recorded (wrapped from the harness) and checked offline by a stack automaton and against an executable reading of the documented contract; exhaustive over trees<=4 x prunings x extension timings; builder scope-stack invariant hooked after processModuleAST',
         text='Exploration. Event traces of the real Visitor.walk/walkabout are recorded at the dispatch boundary and compared, per visitor, with the trace the documented contract requires, and run through a balance/nesting/order automaton. The bounded space of the property (all trees of <=4 nodes x 5^n pruning assignments x 16 timing subsets, both traversals) is completed on every run; the real ASTBuilder with its real extensions plus four recording extensions is traced on real packages and generated modules, and its scope stack is checked after every module.',
